@@ -305,11 +305,86 @@ func init() {
 	register(&PropSpec{
 		ID:          "C12",
 		Explanation: "Decides the structural clause 'every hand-over of an entry is guarded by an offset comparison and the offset is advanced only after the hand-over succeeded, per source': follower-side dedup and per-table continuation, leader-side include/advance ordering, the join offset as a max over the follower's request on a fresh spec, reconnect position advanced only after a successful insert, per-source offset keys, and the restart resume wiring shared with C02.",
-		NotDecided:  []string{"behaviour under actual fault sequences and timing (30 s/5 s/10 s start-up timers)", "gRPC delivery", "tables subscribed after following started are not added to the announced partitions (reading note)", "entries larger than 2 MB are discarded by follower.read (reading note)"},
+		NotDecided:  []string{"behaviour under actual fault sequences and timing (30 s/5 s/10 s start-up timers)", "gRPC delivery", "entries larger than 2 MB are discarded by follower.read (reading note)"},
 		Assumptions: []string{"wal.Offset.After is a strict total order on offsets of one source"},
-		Rules: []func(*Ctx){func(c *Ctx) { ruleC12a(c, "C12.a") }, func(c *Ctx) { ruleC12b(c, "C12.b") }, func(c *Ctx) { ruleC12c(c, "C12.c") }, func(c *Ctx) { ruleC12d(c, "C12.d") }, func(c *Ctx) { ruleC12e(c, "C12.e") }, func(c *Ctx) { ruleC02f(c, "C12.f") }, func(c *Ctx) {
+		Rules: []func(*Ctx){func(c *Ctx) { ruleC12a(c, "C12.a") }, func(c *Ctx) { ruleC12b(c, "C12.b") }, func(c *Ctx) { ruleC12c(c, "C12.c") }, func(c *Ctx) { ruleC12d(c, "C12.d") }, func(c *Ctx) { ruleC12e(c, "C12.e") }, func(c *Ctx) { ruleC02f(c, "C12.f") }, func(c *Ctx) { ruleC12h(c, "C12.h") }, func(c *Ctx) {
 			c.describe("C12.g", "dom: a rejected entry still advances the offset (t.skip)")
 			ruleSkipOnReject(c, "C12.g")
 		}},
 	})
+}
+
+// ruleC12h: every table a follower follows is announced to the leaders.
+func ruleC12h(c *Ctx, rule string) {
+	c.describe(rule, "dom (pairing): in followLeaders every subscriber that is added to the set of followed tables is also registered in the partitions announced to the leaders (table name, partition keys, offsets) — a table that joins later must not depend on what the leader sends for the other tables")
+	fl := c.need(rule, "(*z.DB).followLeaders")
+	if fl == nil {
+		return
+	}
+	n := 0
+	for _, f := range withAnon(fl) {
+		for _, call := range callsTo(f, "builtin append") {
+			if typeStr(call.Common().Args[0].Type()) != "[]*z.table" {
+				continue
+			}
+			n++
+			var regs []ssa.Instruction
+			for _, in := range instrs(f) {
+				if mu, ok := in.(*ssa.MapUpdate); ok && typeStr(mu.Map.Type()) == "map[string]*z/common.Partition" {
+					regs = append(regs, mu)
+				}
+				if st, ok := in.(*ssa.Store); ok {
+					if fa, isF := st.Addr.(*ssa.FieldAddr); isF {
+						if fv := fieldVar(fa.X.Type(), fa.Field); fv != nil && fieldKey(fa.X.Type(), fv) == "z/common.Partition.Tables" {
+							regs = append(regs, st)
+						}
+					}
+				}
+			}
+			ok := len(regs) > 0
+			if ok {
+				// every way from the append back to the enclosing loop header / to a return passes (or is preceded by) a registration
+				pre := false
+				for _, r := range regs {
+					if instrDominates(r, call) {
+						pre = true
+					}
+				}
+				if !pre {
+					targets := []*ssa.BasicBlock{}
+					if l := innermostLoop(f, call.Block()); l != nil {
+						targets = append(targets, l.header)
+					}
+					for _, b := range f.Blocks {
+						if _, isR := b.Instrs[len(b.Instrs)-1].(*ssa.Return); isR {
+							targets = append(targets, b)
+						}
+					}
+					avoid := blockSet{}
+					for _, r := range regs {
+						avoid[r.Block()] = true
+					}
+					if !avoid[call.Block()] {
+						r := reach(call.Block().Succs, avoid, nil)
+						for _, t := range targets {
+							if r[t] {
+								ok = false
+							}
+						}
+					} else {
+						// same block: the registration must come after the append
+						after := false
+						for _, rg := range regs {
+							if rg.Block() == call.Block() && idxIn(call.Block(), rg) > idxIn(call.Block(), call) {
+								after = true
+							}
+						}
+						ok = after
+					}
+				}
+			}
+			c.check(rule, stableName(f)+": a followed table is announced to the leaders", call.Pos(), ok, "the table is registered in the announced partitions on every path", "a table is added to the followed tables without being registered in the partitions announced to the leaders: the leaders do not know its partition keys / WHERE / offsets and send it only what the follower's other tables need")
+		}
+	}
+	c.floor(rule, "appends to the followed tables in followLeaders", n, 1)
 }
